@@ -59,7 +59,7 @@ REQUIRED_PROBES = {
 }
 LAT = [0.0, 0.001, 1.0, 60.0, 3600.0]
 KEYS = ["k0", "k1", "k2", "never"]
-QVALS = [1, 2, 3, "x", [1, 2]]
+QVALS = [1, 2, 3, "x", [1, 2], "1", 1.0]
 
 # ---------------------------------------------------------------------------------------------
 # lambda catalog (opaque specs: never evaluated; chosen to walk every in-place-editing path)
@@ -1378,12 +1378,12 @@ def signature(case, viol) -> str:
 
 
 BUDGETS = {
-    "C11": dict(quick_runs=6000, thorough_budget=900,
+    "C11": dict(quick_runs=12000, thorough_budget=900,
                 technique="deterministic simulation: seeded derive/execute/fault histories over a stream forest, snapshot invariant after every step"),
-    "C12": dict(quick_runs=6000, thorough_budget=900,
+    "C12": dict(quick_runs=15000, thorough_budget=900,
                 technique="deterministic simulation: virtual-time asyncio loop with seeded schedules and executor faults, routing model over the recorded history, bounded liveness"),
-    "C16": dict(quick_runs=5000, thorough_budget=900,
+    "C16": dict(quick_runs=8000, thorough_budget=900,
                 technique="deterministic simulation: seeded QMetaData/derive/execute histories against a dict-per-stream reference model and a twin chain without QMetaData"),
-    "C04": dict(quick_runs=5000, thorough_budget=900,
+    "C04": dict(quick_runs=12000, thorough_budget=900,
                 technique="deterministic simulation: seeded rebinding/deletion/source-touch histories of client programs on a simulated source disk, Python's own lambda as reference"),
 }
